@@ -221,6 +221,52 @@ PROPS = {
         partial="Guards (computable, evaluated per case): df_lm_wfb = wf_pathb on every leaf path (C08 injectivity, no backslash in key values), df_lm_nodupb, df_isolatedb (else c03_atomic_refuted: "
                 "the atomic notification of a changed ordered list names its enclosing container, known finding). c03_minimal is unguarded.",
     ),
+    "C04": dict(
+        level="proof",
+        technique="Coq proof on located trees (fresh-location supply, sharing relation, frame property by induction over the write list) + differential correspondence of the sharing relation with the real DeepCopy/MergeStructs",
+        claim="For the transcription of copyStruct/copy*Field on located trees (every cell carries its address) every cell the result of DeepCopy/MergeStructs shares with an input is in lshared "
+              "(c04_copy_sharing, c04_merge_sharing); for /repo as repaired (unkeyed-list entries and leaf-list members are copied) and no pointer-valued map keys the results are separate "
+              "(c04_copy_separate_fixed, c04_merge_separate_fixed), so no sequence of in-place writes to one side changes the other (c04_frame, induction over the write list, c04_frame_copy_fixed), "
+              "and the copy erases to the original (c04_copy_equal_partial).",
+        note="Trusted: Coq kernel; hand transcription tied by stream 'alias' (cells named by address via reflect+unsafe, model compared up to names of new cells; the oracle overwrites every cell in turn); "
+             "a destination keeps its cell on append; zero-length slices own no cell.",
+        coq_files=["Tree/Merge", "Heap/Located", "Heap/Copy", "Heap/CopyProofs", "Corr/MergeCorr"],
+        streams=[dict(name="alias", n=N(400, 4000))],
+        signatures=["alias/", "copy/"],
+        trusted=["a Go value = located tree; a write = replacement of the node owning the cell"],
+        partial="Wrapper-union map keys are pointers stored as they are: shared also after the repair (c04_refuted_wrapper_key, known finding, guard lno_ptr_keys); c04_copy_equal_partial needs no empty "
+                "slice/map/binary (c04_refuted_empty_binary, known finding) and is an implication (totality of the copy is not proved; non-vacuity from the Examples and the stream). The refutations "
+                "c04_refuted_unkeyed_entry / c04_refuted_binary_leaflist / c04_refuted_frame are about the code before the repairs (fu = fe = false).",
+    ),
+    "C05": dict(
+        level="proof",
+        technique="Coq proof (exact success condition, leaf-set union) by induction over arbitrary schemas and trees + differential correspondence check + independent compatibility oracle on the implementation",
+        claim="MergeStructs(a,b,opts) succeeds exactly when mg_compat opts S a b (c05_succeeds_iff, both options, on the inputs); the documented compatibility is sufficient (c05_succeeds_if_compatible); "
+              "on success the leaves of the result are the union (c05_union_partial), swapping gives the same leaf set (c05_comm_partial), with MergeOverwriteExistingFields no leaf conflict is reported "
+              "and b's leaves are all in the result (c05_overwrite_no_leaf_conflict, c05_overwrite_partial).",
+        note="Trusted: Coq kernel; transcription tied by stream 'merge' (pairs derived from one tree: overlap/disjoint/one injected violation/same/empty side, both options; Go kind of every leaf field "
+             "checked against mg_repr_of; inputs checked for mg_conforms and mg_wf_schema); oracle = independent compatibility predicate and union on a reflect flattening, inputs unchanged, swap.",
+        coq_files=["Tree/Merge", "Tree/Prune", "Tree/PruneProofs", "Tree/MergeProofs", "Corr/MergeCorr"],
+        streams=[dict(name="merge", n=N(450, 5000))],
+        signatures=["merge/"],
+        trusted=["Go maps as key-unique association lists compared as sets; wrapper-union keys identified by value (pairs share key objects)"],
+        partial="The documented 'exactly when' fails in one direction (c05_refuted_binary_leaf, c05_refuted_ordered_overlap: known findings); union/comm/overwrite need mg_plain (no YANGEmpty/Binary "
+                "leaf: c05_refuted_empty_leaf, c05_refuted_overwrite_binary) and mg_srcok, and are proved for the copySliceField variant that shares unkeyed entries (the leaf sets are the same); "
+                "'inputs unchanged' is oracle-only (trivial in a functional model).",
+    ),
+    "C14": dict(
+        level="proof",
+        technique="Coq proof (totality, leaf preservation, idempotence, build/prune) by induction over arbitrary schemas and trees + differential correspondence check",
+        claim="PruneEmptyBranches returns normally on every tree (c14_total_fixed; the code before the repair panicked exactly when mg_prune_safe is false: c14_panics_iff) and never errs (c14_never_err); "
+              "leaves, leaf-list members and list entries are preserved (c14_preserves_leaves_partial), no container without data is left (c14_no_empty_partial), a second call changes nothing "
+              "(c14_idempotent), PruneEmptyBranches after BuildEmptyTree equals PruneEmptyBranches alone (c14_build_prune).",
+        note="Trusted: Coq kernel; transcription of pruneBranchesInternal/initialiseTree tied by stream 'prune' (emptyConts trees, empties sprinkled, ordered lists kept/partly/fully removed, three cases per tree, panics recovered).",
+        coq_files=["Tree/Merge", "Tree/Prune", "Tree/PruneProofs", "Corr/MergeCorr"],
+        streams=[dict(name="prune", n=N(450, 5000))],
+        signatures=["prune/"],
+        trusted=["read-only reflect.Value rules (Interface/Set panic below unexported fields) as encoded in mg_ro_panics (only the pre-repair variant uses them)"],
+        partial="c14_refuted_empty_binary (an empty non-nil binary leaf counts as unset: guard mg_nobin, known finding), c14_refuted_unkeyed_entry (containers below unkeyed entries are not pruned, known finding).",
+    ),
     "C22": dict(
         level="proof",
         technique="Coq proof (successful runs of the intent builder are determined by their set of leaf writes and delete markers; "
